@@ -171,6 +171,21 @@ def run(ctx, rep):
                 if nm == "PlainOk":
                     rep.control("C20.2", not a["interior"], "type walk silent on controls::PlainOk")
 
+        # ---- C20.4 "each query returns exactly what it returns when issued alone": nothing reachable from the query API reads a
+        # clock, the environment, a thread id, a random source or an address (a deadline makes an answer depend on scheduling)
+        import effects as E4
+        import anchors as A4
+        roots = []
+        for T_ in (A4.MAPPER, A4.CACHE):
+            for m_ in ("remap_class", "remap_method", "remap_frame", "remap_throwable", "remap_stacktrace", "remap_stacktrace_typed", "deobfuscate_signature"):
+                roots += A4.method(fx, T_, m_)
+        for it_ in ("mapper::RemappedFrameIter", "cache::RemappedFrameIter"):
+            roots += A4.method(fx, it_, "next", trait="Iterator")
+        seen4 = {q_ for q_ in fx.reachable(roots) if fx.bodies[q_]["krate"] == "proguard"} if roots else set()
+        amb4 = [(q_, n_, w_) for q_, n_, w_ in E4.ambient_sources(fx, seen4) if not w_.startswith("reads static")]
+        rep.check("C20.4" + sfx, "C20.4/ambient-on-query-paths", not amb4 and len(roots) >= 10, loc="src/",
+                  found=[("%s: %s" % (q_.split("::")[-1], w_)) for q_, n_, w_ in amb4[:4]] or "%d query entry points, %d functions reachable, no ambient source" % (len(roots), len(seen4)),
+                  expected="no time/env/thread/pid/RNG/address dependence on the query paths")
         # ---- C20.3 inventory -------------------------------------------------------
         items = fx.items["proguard"]
         for s in items["statics"]:
